@@ -15,7 +15,7 @@ FOCUS = {'exit': 10, 'tick': 14, 'grow': 3, 'shrink': 3, 'apply': 8, 'ack': 8}
 
 
 def run(res):
-    res.proof_step('Props/C09.v', extra_targets=['Model/Pool.vo', 'Model/Worker.vo'], kernels_needed=['G_pool_shape', 'K_worker', 'K_restart'])
+    res.proof_step('Props/C09.v', extra_targets=['Model/Pool.vo', 'Model/Worker.vo'], kernels_needed=['G_pool_shape', 'K_worker', 'K_restart', 'G_pool_pins'])
     n = 150 if res.tier == 'quick' else 6000
     if res.broken:
         n = max(n, 1500)      # failing-input search on the implementation
